@@ -108,7 +108,9 @@ def storeOrDedup (w : Writer) (data : Str) : Prog (Writer × Except Err Str) := 
       | .err e => pure (w, .error (.transport e))
       | _ => pure (w, .error (.transport .other))
 
-/-- `FileCombiner::flush`.  Note the order: the buffer is taken *before* the store. -/
+/-- `FileCombiner::flush`.  The buffer is taken before the store; if the store fails it is put
+back, so that the queued (start, len) pairs keep describing it and a later flush retries.
+(`combinerFlushLosing` below is the code before the repair of D5, which dropped the buffer.) -/
 def combinerFlush (w : Writer) : Prog (Writer × Except Err Unit) := do
   if w.queue.isEmpty then pure (w, .ok ())
   else
@@ -116,7 +118,7 @@ def combinerFlush (w : Writer) : Prog (Writer × Except Err Unit) := do
     let w := { w with buf := [] }
     let (w, r) ← storeOrDedup H w data
     match r with
-    | .error e => pure (w, .error e)
+    | .error e => pure ({ w with buf := data }, .error e)
     | .ok h =>
       let done := w.queue.map fun (start, len, e) => { e with addrs := [{ hash := h, start := start, len := len }] }
       pure ({ w with finished := w.finished ++ done, queue := [],
